@@ -51,6 +51,8 @@ Q use(const std::vector<Q> &knots) {
   acc += BilinearForm{h}.evaluate(a, b) + BilinearForm{Dx<1>{}, X<1>{}}(a, b) + ScalarProduct{}(a, b) + LinearForm{h}(a) + LinearForm{}.evaluate(a);
   auto ha = h * a;
   acc += ha(Q(1)) + (IdentityOperator{} * a)(Q(1)) + (Q(2) * X<1>{} * a)(Q(1)) + ((X<1>{} - Q(1)) * a)(Q(1)) + ((Q(1) - X<1>{}) * a)(Q(1)) + ((-X<1>{}) * a)(Q(1));
+  // every template branch of the primitive operators: derivative order above / equal to / below the spline order
+  acc += (Dx<3>{} * a)(Q(1)) + (Dx<2>{} * a)(Q(1)) + (Dx<1>{} * a)(Q(1)) + (Dx<0>{} * a)(Q(1)) + (Dx<1>{} * b0.front())(Q(1)) + (X<0>{} * a)(Q(1)) + (X<3>{} * b0.front())(Q(1));
   // supports and grids
   const auto &sup = a.getSupport();
   auto un = sup.calcUnion(b.getSupport());
